@@ -29,6 +29,14 @@ type result struct {
 	After    []vault.SecState `json:"after"`    // served state after the retry
 	OpenErr  string           `json:"openerr"`  // failure before the operation (setup)
 	CacheGot string           `json:"cachegot"` // cachewrite: what Read returns afterwards
+	LiveSize int64            `json:"livesize"` // size of the live file right after the operation (before any retry)
+}
+
+func sizeOf(p string) int64 {
+	if fi, err := os.Stat(p); err == nil {
+		return fi.Size()
+	}
+	return 0
 }
 
 func mark(s string) { os.Stderr.WriteString(s + "\n") }
@@ -77,9 +85,13 @@ func main() {
 		mark("MARK-BEGIN")
 		err = fc.Write(data)
 		mark("MARK-END")
+		res.LiveSize = sizeOf(filepath.Join(*dir, "cache", "secrets.json"))
 		res.Class = "ok"
 		if err != nil {
 			res.Err, res.Class = err.Error(), "error"
+			if b, err := os.ReadFile(filepath.Join(*dir, "cache", "secrets.json")); err == nil {
+				os.WriteFile(filepath.Join(*dir, "after-error.cache"), b, 0o600)
+			}
 			if err2 := fc.Write(data); err2 != nil {
 				res.Retry = "error:" + err2.Error()
 			} else {
@@ -109,6 +121,7 @@ func main() {
 		mark("MARK-BEGIN")
 		sys, err := vault.OpenSys(*dir, kek, d)
 		mark("MARK-END")
+		res.LiveSize = sizeOf(filepath.Join(*dir, "db", "state.db"))
 		res.Class = "ok"
 		if err != nil {
 			res.Err, res.Class = err.Error(), "error"
@@ -149,12 +162,18 @@ func main() {
 	mark("MARK-BEGIN")
 	o := doOp(sys, *op)
 	mark("MARK-END")
+	res.LiveSize = sizeOf(filepath.Join(*dir, "db", "state.db"))
 	res.Class = o.Class
 	if len(o.Notes) > 0 {
 		res.Err = strings.Join(o.Notes, ";")
 	}
 	res.State, _ = sys.Observe(false)
 	if o.Class != "ok" {
+		// what is on disk right now (before the retry), for the parent to open
+		if b, err := os.ReadFile(filepath.Join(*dir, "db", "state.db")); err == nil {
+			os.MkdirAll(filepath.Join(*dir, "after-error", "db"), 0o700)
+			os.WriteFile(filepath.Join(*dir, "after-error", "db", "state.db"), b, 0o600)
+		}
 		// later calls must succeed normally
 		o2 := doOp(sys, *op)
 		res.Retry = o2.Class
